@@ -73,3 +73,29 @@ def perColumn (g : Term → Term) : Term :=
     Term.app "block" [Term.app "yield" [Term.app "tuple" [Term.sym "colname", g (Term.sym "column")]]]]
 
 end DI.Py
+
+namespace DI.Py
+
+mutual
+/-- does some node `app f args` of the term satisfy `p f args`? -/
+def Term.anyApp (p : String → List Term → Bool) : Term → Bool
+  | .app f args => p f args || Term.anyAppList p args
+  | _ => false
+def Term.anyAppList (p : String → List Term → Bool) : List Term → Bool
+  | [] => false
+  | t :: ts => Term.anyApp p t || Term.anyAppList p ts
+end
+
+/-- a write into the object bound to the name `v`: `v[k] = x`, `del v[k]`, or one of dict's mutating methods on it. -/
+def writesInto (v : String) (f : String) (args : List Term) : Bool :=
+  match f, args with
+  | "store", Term.app "getitem" (Term.sym w :: _) :: _ => w == v
+  | "del", Term.app "getitem" (Term.sym w :: _) :: _ => w == v
+  | "setattr", Term.sym w :: _ => w == v
+  | m, Term.sym w :: _ => w == v && [".update", ".pop", ".popitem", ".clear", ".setdefault", ".__setitem__", ".__delitem__"].contains m
+  | _, _ => false
+
+/-- do the effects of an outcome write into the loop variable `item` (an item of the receiver)? -/
+def Out.writesItems (o : Out) : Bool := Term.anyAppList (writesInto "item") o.effs
+
+end DI.Py
